@@ -115,6 +115,14 @@ theorem C30_cascade (ops : List Op) (org r : Nat) (s' : State)
   have := deleteOrganization_cascade (C30_invariant ops) org h
   exact ⟨this.1, fun u => this.2 (org, u) rfl⟩
 
+/-- The state form of the cascade: in every reachable state every bucket belongs to an existing
+    organization — no operation sequence leaves an orphan bucket behind. -/
+theorem C30_no_orphan_buckets (ops : List Op) (id : Nat) (b : BucketRec)
+    (hb : get (exec init ops).bkts id = some b) : ∃ n, get (exec init ops).orgs b.org = some n := by
+  have := exec_orphanFree ops init_inv (fun _ _ h => by simp [init] at h) id b hb
+  simp only [has_eq, Option.isSome_iff_exists] at this
+  exact this
+
 /-- System buckets cannot be deleted or renamed: whatever single operation is applied in a
     reachable state — other than deleting the bucket's organization — a system bucket record
     is still there, unchanged. -/
